@@ -24,7 +24,7 @@ PROFILE = S.GENERAL.but(p_block=6, p_rerun=8, p_edge=45, p_nested=25, p_raise=22
 
 
 def budget(tier):
-    return dict(examples=6000 if tier == 'quick' else 300000)
+    return dict(examples=6000 if tier == 'quick' else 150000)
 
 
 def strategy(tier):
